@@ -14,6 +14,8 @@ From Verif Require Import Base.GoSem Css.Token Css.Tok Css.Parse
 From Coq Require Import QArith.
 From Verif Require Css.Syntax3Spec.
 From Verif Require Css.TextComposeProofs.
+From Verif Require Css.TextComposeProofs2.
+From Verif Require Css.TextComposeProofs3.
 From Coq Require Import List NArith ZArith.
 Import ListNotations.
 
@@ -449,4 +451,65 @@ Print Assumptions C06_text_compositional_partial.
 
 Example C06_text_compositional_partial_inhabited :
   forallb Css.TextComposeProofs.simple_delim [59; 58; 44; 44; 59; 58]%N = true.
+Proof. reflexivity. Qed.
+
+(* C06_text_compositional_statement restricted to the wider class (Css/TextComposeProofs2.v):
+   s1 (of any length) consists only of the code points  ! % & ) , : ; = > ? ] ` }
+   (33 37 38 41 44 58 59 61 62 63 93 96 125): exactly-one-code-point tokens of the
+   specification that never look ahead and open no block (the closers are preserved
+   tokens at top level); s2 arbitrary.  The statement's hypothesis always holds on this
+   class, so it is not needed. *)
+Theorem C06_text_compositional_partial2 : forall s1 s2 : list N,
+  forallb Css.TextComposeProofs2.simple2 s1 = true ->
+  Css.Syntax3Spec.spec_tokenize false (s1 ++ 59%N :: s2) =
+    Css.Syntax3Spec.spec_tokenize false s1 ++ TLiteral Css.Syntax3Spec.p0 [59%N] :: Css.Syntax3Spec.spec_tokenize false s2.
+Proof. exact Css.TextComposeProofs2.text_compositional_simple2. Qed.
+Print Assumptions C06_text_compositional_partial2.
+
+(* each such code point is a token of its own whatever follows (closers become ParseError tokens) *)
+Theorem C06_text_simple2_head : forall (c : N) (s : list N),
+  Css.TextComposeProofs2.simple2 c = true ->
+  Css.Syntax3Spec.spec_tokenize false (c :: s) =
+    Css.Syntax3Spec.norm_token (Css.TextComposeProofs2.tok2 c) ++ Css.Syntax3Spec.spec_tokenize false s.
+Proof. exact Css.TextComposeProofs2.spec_tokenize_simple2_head. Qed.
+Print Assumptions C06_text_simple2_head.
+
+Example C06_text_compositional_partial2_inhabited :
+  forallb Css.TextComposeProofs2.simple2 [125; 33; 41; 58; 93; 61; 62; 63; 96; 37; 38; 44; 59]%N = true.
+Proof. reflexivity. Qed.
+
+(* fuel irrelevance of the specification's token stream (Css/BlocksProofs.v): once the fuel
+   covers the input length, tokens_from has terminated and more fuel changes nothing
+   (inputs as produced by preprocessing: scalar values, no NUL). *)
+Theorem C06_tokens_from_fuel_irrelevant : forall (n m : nat) (inp : list N),
+  scalars inp -> nonul inp -> (length inp <= n)%nat -> (length inp <= m)%nat ->
+  Css.Syntax3Spec.tokens_from n inp = Css.Syntax3Spec.tokens_from m inp.
+Proof. intros n m inp Hs Hn. exact (tokens_from_irrel n m inp (conj Hs Hn)). Qed.
+Print Assumptions C06_tokens_from_fuel_irrelevant.
+
+(* a whitespace run (code points 9 10 32, any positive length) in front of one of the
+   one-code-point tokens above is exactly one whitespace token: the run is consumed
+   maximally (Css/TextComposeProofs3.v, uses the fuel irrelevance above) *)
+Theorem C06_text_ws_run_head : forall (w : N) (ws : list N) (c : N) (s : list N),
+  forallb Css.TextComposeProofs3.ws3 (w :: ws) = true -> Css.TextComposeProofs2.simple2 c = true ->
+  scalars ((w :: ws) ++ c :: s) ->
+  Css.Syntax3Spec.spec_tokenize false ((w :: ws) ++ c :: s) =
+    TWhitespace Css.Syntax3Spec.p0 [] :: Css.Syntax3Spec.spec_tokenize false (c :: s).
+Proof. exact Css.TextComposeProofs3.spec_tokenize_ws_run_head. Qed.
+Print Assumptions C06_text_ws_run_head.
+
+(* C06_text_compositional_statement restricted to the class ok3 (boolean predicate): s1 (any
+   length) consists only of the code points  ! % & ) , : ; = > ? ] ` }  and the whitespace
+   code points 9 10 32 (runs of any length, anywhere), and s1 does not END in whitespace
+   (a trailing run would merge with whitespace at the start of s2); s2 arbitrary scalars.
+   The statement's hypothesis always holds on this class, so it is not needed. *)
+Theorem C06_text_compositional_partial3 : forall s1 s2 : list N,
+  Css.TextComposeProofs3.ok3 s1 = true -> scalars (s1 ++ 59%N :: s2) ->
+  Css.Syntax3Spec.spec_tokenize false (s1 ++ 59%N :: s2) =
+    Css.Syntax3Spec.spec_tokenize false s1 ++ TLiteral Css.Syntax3Spec.p0 [59%N] :: Css.Syntax3Spec.spec_tokenize false s2.
+Proof. exact Css.TextComposeProofs3.text_compositional_ws. Qed.
+Print Assumptions C06_text_compositional_partial3.
+
+Example C06_text_compositional_partial3_inhabited :
+  Css.TextComposeProofs3.ok3 [32; 10; 125; 9; 58; 32; 32; 44; 10; 59]%N = true.
 Proof. reflexivity. Qed.
